@@ -93,6 +93,11 @@ func Respell(t *rapid.T, label, v string, kinds map[string]bool, allowHuge bool)
 				arg = Pick(t, label+"-hugev"+itoa(int64(i)), c12Huge...)
 				kinds["huge-number"] = true
 			}
+			if allDigits(arg) && Pct(t, label+"-zp"+itoa(int64(i)), 12) {
+				// leading zeros do not change a delta-seconds value
+				arg = strings.Repeat("0", Pick(t, label+"-zpn"+itoa(int64(i)), 1, 4, 9, 15)) + arg
+				kinds["leading-zeros"] = true
+			}
 			switch Weighted(t, label+"-q"+itoa(int64(i)), 55, 35, 10) {
 			case 1:
 				arg = `"` + arg + `"`
@@ -180,7 +185,29 @@ func Respell(t *rapid.T, label, v string, kinds map[string]bool, allowHuge bool)
 		}
 		out = append(out, b.String())
 	}
+	// an empty field line (or one holding only separators) adds no list element
+	if Pct(t, label+"-emptyline", 12) {
+		e := Pick(t, label+"-emptylinev", "", "", ",", " ", ", ,")
+		if Pct(t, label+"-emptyfirst", 60) {
+			out = append([]string{e}, out...)
+		} else {
+			out = append(out, e)
+		}
+		kinds["empty-field-line"] = true
+	}
 	return out
+}
+
+func allDigits(s string) bool {
+	if s == "" {
+		return false
+	}
+	for i := 0; i < len(s); i++ {
+		if s[i] < '0' || s[i] > '9' {
+			return false
+		}
+	}
+	return true
 }
 
 func respellHeader(t *rapid.T, label string, h [][2]string, kinds map[string]bool, allowHuge bool) [][2]string {
